@@ -31,6 +31,7 @@ type c15Worker struct {
 	stderr   bytes.Buffer
 	done     chan struct{} // the process has exited and its output has been read
 	dead     atomic.Bool
+	killed   atomic.Bool // by the watchdog
 }
 
 // write feeds the worker's stdin from its queue.
@@ -203,6 +204,7 @@ func (f *c15Farm) watchdog() {
 				default:
 				}
 				w.dead.Store(true)
+				w.killed.Store(true)
 				_ = w.cmd.Process.Kill()
 				f.mu.Lock()
 				raw := f.raw[cur]
@@ -289,12 +291,13 @@ func (f *c15Farm) drain() {
 	for _, w := range f.workers {
 		close(w.q)
 	}
+	crashReported := false
 	for _, w := range f.workers {
 		for {
 			w.mu.Lock()
 			n := len(w.inflight)
 			w.mu.Unlock()
-			if n == 0 || w.dead.Load() {
+			if n == 0 {
 				break
 			}
 			exited := false
@@ -304,11 +307,9 @@ func (f *c15Farm) drain() {
 			default:
 			}
 			if exited {
-				w.mu.Lock()
-				n = len(w.inflight)
-				w.mu.Unlock()
-				if n > 0 {
-					f.crashed(w)
+				// gone with behaviours in flight: killed by the watchdog (reported there) or crashed
+				if !w.killed.Load() && !crashReported {
+					crashReported = f.crashed(w)
 				}
 				break
 			}
@@ -325,7 +326,11 @@ func (f *c15Farm) drain() {
 	dropped := f.dropped
 	f.mu.Unlock()
 	if dropped > 0 {
-		f.c.Inconclusive("%d behaviours were not replayed because their worker was gone", dropped)
+		if crashReported {
+			f.c.Warn("%d behaviours were not replayed because their worker had crashed", dropped)
+		} else {
+			f.c.Inconclusive("%d behaviours were not replayed because their worker was gone", dropped)
+		}
 	}
 }
 
@@ -338,7 +343,7 @@ func c15Short(raw []byte) string {
 }
 
 // crashed: the sub-process died with behaviours in flight.
-func (f *c15Farm) crashed(w *c15Worker) {
+func (f *c15Farm) crashed(w *c15Worker) (violation bool) {
 	w.mu.Lock()
 	cur := w.current
 	w.mu.Unlock()
@@ -360,12 +365,13 @@ func (f *c15Farm) crashed(w *c15Worker) {
 		f.c.Violation("panic in a goroutine of the pool (expiry call-back)", map[string]any{
 			"options": map[string]any{"Capacity": b.Cap, "KeyCapacity": b.Kcap, "Expiration": b.Exp},
 			"calls":   b.Labels(), "config": tag, "panic": first})
-		return
+		return true
 	}
 	if len(es) > 2000 {
 		es = es[len(es)-2000:]
 	}
 	f.c.Inconclusive("replay worker exited with behaviours in flight: %s", es)
+	return false
 }
 
 // ---- the check -----------------------------------------------------------------------------
@@ -522,7 +528,7 @@ func C15(c *vf.Ctx) {
 	c.Cov["behaviours_by_route_in_final_state"] = farm.routes
 	c.Cov["behaviours_by_anomaly_predicted_by_the_specification"] = farm.anoms
 	c.Cov["signatures"] = farm.sigCount
-	c.Cov["rule"] = "Pool.tla models Put/Take/Close and the three steps of the expiry call-back over the pointer structure of the two intrusive lists and their count fields; TLC checks TypeOK, Consistent (lists and counts agree unless a recorded route was taken), Safe (no statement of the property fails unless a recorded route was taken), TakeOK and NoEndlessLoop exhaustively over all 32 option settings (Capacity, KeyCapacity in {-1,0,1,2}, expiration on/off). Every transition of the state graph (as a shortest behaviour into its source state plus the step; smaller bounds), a seeded simulation sample of maximal behaviours of larger bounds, and every transition of a configuration that uses the pool after Pool.Close are replayed on a real drpcpool.Pool in a testing/synctest bubble: after every step the count fields, walked list lengths, key presence, Close calls per connection, Take result, panics and the parked expiry call-backs are compared with the specification, and the property's monitors (bounds on walked lengths, Take result open/unblocked/not expiring/handed out once, not closed while handed out, finally handed out or closed) run on the real observations. A behaviour is distinct by (options, call sequence)."
+	c.Cov["rule"] = "Pool.tla models Put/Take/Close and the three steps of the expiry call-back over the pointer structure of the two intrusive lists and their count fields; TLC checks TypeOK, Consistent (lists and counts agree unless a recorded route was taken), Safe (no statement of the property fails unless a recorded route was taken), TakeOK and NoEndlessLoop exhaustively over all 32 option settings (Capacity, KeyCapacity in {-1,0,1,2}, expiration on/off). Every transition of the state graph (as a shortest behaviour into its source state plus the step; smaller bounds), a seeded simulation sample of maximal behaviours of larger bounds, and every transition of a configuration that uses the pool after Pool.Close are replayed on a real drpcpool.Pool in a testing/synctest bubble: after every step the count fields, walked list lengths, key presence, Close calls per connection, Take result, panics and the parked expiry call-backs are compared with the specification, and the property's monitors (bounds on walked lengths, Take result open/unblocked/not expiring/handed out once, not closed while handed out, finally handed out or closed) run on the real observations. At the end of every behaviour time is advanced to compare which timers are still pending; a behaviour on which the real pool leaves the specification is continued with the monitors only and ends with a direct probe of the bounds (fresh puts under every key). A behaviour is distinct by (options, call sequence)."
 	c.Cov["exhaustive"] = false
 }
 
